@@ -55,7 +55,7 @@ Lemma frame_json p w idx f : frame_ok f ->
     jget k_module_offset j = Some (match fr_module f with Some (_, base) => jhex w (fr_instr f - base) | None => JNull end) /\
     jget k_function_offset j = Some (match fr_function_base f with Some base => jhex w (fr_instr f - base) | None => JNull end) /\
     jget k_missing_symbols j = Some (JBool (match fr_function f with Some _ => false | None => true end)) /\
-    jget k_trust j = Some (JStr (fr_trust f)).
+    jget k_trust j = Some (JStr (trust_name (fr_trust f))).
 Proof.
   intros (Hi & Hm & Hf). unfold json_of_frame.
   assert (E1 : match fr_module f with
@@ -237,4 +237,12 @@ Proof.
       * eexists; exists ts. split; [reflexivity|]. rewrite <- Em, <- Eu, Hlen, Etj. repeat split; try reflexivity; exact F2.
     + exfalso. apply nth_error_None in Et. lia.
   - eexists; exists ts. split; [reflexivity|]. rewrite <- Em, <- Eu, Hlen. repeat split; try reflexivity; exact F2.
+Qed.
+
+(* ------------------------------------------------------------------ enumerations (finite check) *)
+Definition subset (a b : list (list Z)) : bool := forallb (fun x => existsb (list_eqb x) b) a.
+Lemma subset_In a b : subset a b = true -> forall x, In x a -> In x b.
+Proof.
+  unfold subset. rewrite forallb_forall. intros H x Hx. specialize (H x Hx).
+  apply existsb_exists in H. destruct H as (y & Hy & E). apply list_eqb_eq in E. subst y. exact Hy.
 Qed.
